@@ -5,6 +5,8 @@
 (* per critical section, inside the lock that orders it:                   *)
 (*   pushed / recursive / popped     StorageResolver::get (chain mutex;    *)
 (*                                   cfg-guarded log points in file.rs)    *)
+(*   lpushed / lrecursive / lpopped  StorageResolver::with_loading (same   *)
+(*                                   mutex; the key is the direct leaf)    *)
 (*   c_skip c_mark c_hit_* c_block c_wake_* c_publish_*                    *)
 (*                                   the compute-once cache (its mutex)    *)
 (* Runs are concatenated: a `config` event (dependencies, loads, shared    *)
@@ -30,6 +32,7 @@ StartRun(c) ==
   /\ cache' = [k \in Keys |-> "absent"]
   /\ results' = [t \in Threads |-> <<>>]
   /\ panicked' = FALSE
+  /\ gorder' = <<>>
   /\ sched' = <<>>
 
 TraceInit ==
@@ -41,6 +44,7 @@ TraceInit ==
   /\ cache = [k \in Keys |-> "absent"]
   /\ results = [t \in Threads |-> <<>>]
   /\ panicked = FALSE
+  /\ gorder = <<>>
   /\ sched = <<>>
   /\ l = 2
 
@@ -53,6 +57,10 @@ AtKey == stack[T] # <<>> /\ Top(T).key = K
 TrPushed    == Ev("pushed")    /\ AtKey /\ ~InSeq(K, chain[ChainOf(T)]) /\ DoGuardEnter(T)
 TrRecursive == Ev("recursive") /\ AtKey /\ InSeq(K, chain[ChainOf(T)])  /\ DoGuardEnter(T)
 TrPopped    == Ev("popped")    /\ AtKey /\ DoGuardExit(T)
+\* with_loading (a direct typed entry given by reference: the key is in DirectKeys)
+TrLPushed    == Ev("lpushed")    /\ AtKey /\ ~InSeq(K, chain[ChainOf(T)]) /\ DoLoadEnter(T)
+TrLRecursive == Ev("lrecursive") /\ AtKey /\ InSeq(K, chain[ChainOf(T)])  /\ DoLoadEnter(T)
+TrLPopped    == Ev("lpopped")    /\ AtKey /\ DoLoadExit(T)
 \* cache
 TrSkip      == Ev("c_skip")    /\ AtKey /\ ~CacheOn /\ DoCacheEnter(T)
 TrMark      == Ev("c_mark")    /\ AtKey /\ CacheOn /\ cache[K] = "absent" /\ DoCacheEnter(T)
@@ -72,6 +80,7 @@ TrConfig    == Ev("config") /\ AllDone /\ StartRun(ConfOf(Rec[l]))
 
 TraceNext == TrPushed \/ TrRecursive \/ TrPopped \/ TrSkip \/ TrMark \/ TrHitOk \/ TrHitErr \/ TrBlock
              \/ TrWakeOk \/ TrWakeErr \/ TrPubOk \/ TrPubErr \/ TrEnd \/ TrConfig
+             \/ TrLPushed \/ TrLRecursive \/ TrLPopped
 
 TraceSpec == TraceInit /\ [][TraceNext]_tvars
 
